@@ -474,8 +474,6 @@ def step(ctx, u, op, pre, hist, known=frozenset()):
 
   # coverage classes observed on reached states
   if accepted and res.changed:
-    if name in ("set_style", "add_animation_step", "put_initial_value") or name == "copy_to":
-      pass
     if name in ("push_children", "push_child"):
       k = pre["el"][op[1]]["kind"]
       if k in ("Ruby", "Rtc"):
@@ -534,7 +532,8 @@ def run_ex(ctx, p):
           rec.count("ex:state-already-expanded")
           continue
         visited.add(key)
-        rec.count("ex:states-to-expand")
+        if level > 1 or first:
+          ctx.count(f"ex:states-to-expand:after-len{level}")
         nxt.append((hist, res.post, nontriv))
     if level == 1:
       ctx.count("ex:frontier-after-level1", len(nxt) if first else 0)
